@@ -81,7 +81,11 @@ static void on_phase_impl(int tag, const std::vector<cell_ptr>* lp) {
                 // the adhesion cut-off (pairs are then snapped together, so the distance can only have shrunk); a stale list index designates
                 // a node of another cell, a cell size away
                 { const vec3& a = n.pos(); const vec3& b = onl[cp.second].pos(); double d = std::sqrt((a.dx() - b.dx()) * (a.dx() - b.dx()) + (a.dy() - b.dy()) * (a.dy() - b.dy()) + (a.dz() - b.dz()) * (a.dz() - b.dz()));
-                    if (!(d <= 2.0 * m->cutoff)) { m->viol("coupling_designates_wrong_cell" + at, "a node is coupled to a node " + std::to_string(d / m->cutoff) + " adhesion cut-offs away (stale list index?)"); return; } }
+                    // (model 2 couples a node to nodes of several cells and the couplings need not be mutual: each partner may have been pulled towards
+                    // another partner by up to half a cut-off per coupling, so chains reach 2.5 cut-offs - observed once in 8250 histories; a stale
+                    // index designates a node a cell size, i.e. 15-20 cut-offs, away)
+                    const double lim = CONTACT_MODEL_INDEX == 2 ? 4.0 : 2.0;
+                    if (!(d <= lim * m->cutoff)) { m->viol("coupling_designates_wrong_cell" + at, "a node is coupled to a node " + std::to_string(d / m->cutoff) + " adhesion cut-offs away (stale list index?)"); return; } }
             }
         }
     }
